@@ -3,7 +3,8 @@
    same branch tests, same formulas, same operation order (so that the float instance agrees with the
    implementation bit for bit, including at the thresholds).  The threshold multipliers (the `10` of
    `10 * _eps`) are PARAMETERS: every run re-reads them from the source AST (coq/gen/Consts_C05.v).
-   Python exceptions are modelled by `None` (math.asin outside [-1,1] raises ValueError). *)
+   Since fix dd68bbe the singular branch computes math.asin(np.clip(x, -1.0, 1.0)), so tr2rpy is total (before the fix
+   math.asin raised ValueError for |x| = 1 + ulp and the model returned an option). *)
 From Coq Require Import ZArith.
 From SM Require Import Base.Ops Base.Lin.
 
@@ -24,8 +25,9 @@ Definition argmax4 (a b c d : T) : nat :=
   let km := if snd km <? d then (3%nat, d) else km in
   fst km.
 
-(* math.asin raises ValueError outside [-1, 1] *)
-Definition asin_py (x : T) : option T := if 1 <? abs x then None else Some (asin x).
+(* np.clip(x, -1.0, 1.0) = minimum(maximum(x, -1), 1), then math.asin *)
+Definition clip1 (x : T) : T := if ltb O x (neg O (one O)) then neg O (one O) else if ltb O (one O) x then one O else x.
+Definition asin_clip (x : T) : T := asin (clip1 x).
 
 (* rpy *= 180 / math.pi *)
 Definition to_deg : T := of_Z O 180 / pi_f O.
@@ -46,17 +48,17 @@ Definition pitch_zyx (k : nat) (R : M33 T) (r y : T) : T :=
   end.
 Definition argmax_zyx (R : M33 T) : nat :=
   let '((r00,r01,r02),(r10,r11,r12),(r20,r21,r22)) := R in argmax4 (abs r00) (abs r10) (abs r21) (abs r22).
-Definition rpy_zyx_sing (R : M33 T) : option (V3 T) :=
+Definition rpy_zyx_sing (R : M33 T) : V3 T :=
   let '((r00,r01,r02),(r10,r11,r12),(r20,r21,r22)) := R in
   let y := if r20 <? 0 then - atan2 r01 r02 else atan2 (- r01) (- r02) in
-  match asin_py r20 with None => None | Some a => Some (0, - a, y) end.
+  (0, - asin_clip r20, y).
 Definition rpy_zyx_ns (k : nat) (R : M33 T) : V3 T :=
   let '((r00,r01,r02),(r10,r11,r12),(r20,r21,r22)) := R in
   let r := atan2 r21 r22 in let y := atan2 r10 r00 in
   (r, pitch_zyx k R r y, y).
-Definition tr2rpy_zyx (c : T) (R : M33 T) : option (V3 T) :=
+Definition tr2rpy_zyx (c : T) (R : M33 T) : V3 T :=
   let '((r00,r01,r02),(r10,r11,r12),(r20,r21,r22)) := R in
-  if is_sing c r20 then rpy_zyx_sing R else Some (rpy_zyx_ns (argmax_zyx R) R).
+  if is_sing c r20 then rpy_zyx_sing R else rpy_zyx_ns (argmax_zyx R) R.
 
 (* ------------------------------------------------------------------ order 'xyz' / 'arm' *)
 Definition pitch_xyz (k : nat) (R : M33 T) (r y : T) : T :=
@@ -69,17 +71,17 @@ Definition pitch_xyz (k : nat) (R : M33 T) (r y : T) : T :=
   end.
 Definition argmax_xyz (R : M33 T) : nat :=
   let '((r00,r01,r02),(r10,r11,r12),(r20,r21,r22)) := R in argmax4 (abs r00) (abs r01) (abs r12) (abs r22).
-Definition rpy_xyz_sing (R : M33 T) : option (V3 T) :=
+Definition rpy_xyz_sing (R : M33 T) : V3 T :=
   let '((r00,r01,r02),(r10,r11,r12),(r20,r21,r22)) := R in
   let y := if 0 <? r02 then atan2 r21 r11 else - atan2 r10 r20 in
-  match asin_py r02 with None => None | Some a => Some (0, a, y) end.
+  (0, asin_clip r02, y).
 Definition rpy_xyz_ns (k : nat) (R : M33 T) : V3 T :=
   let '((r00,r01,r02),(r10,r11,r12),(r20,r21,r22)) := R in
   let r := - atan2 r01 r00 in let y := - atan2 r12 r22 in
   (r, pitch_xyz k R r y, y).
-Definition tr2rpy_xyz (c : T) (R : M33 T) : option (V3 T) :=
+Definition tr2rpy_xyz (c : T) (R : M33 T) : V3 T :=
   let '((r00,r01,r02),(r10,r11,r12),(r20,r21,r22)) := R in
-  if is_sing c r02 then rpy_xyz_sing R else Some (rpy_xyz_ns (argmax_xyz R) R).
+  if is_sing c r02 then rpy_xyz_sing R else rpy_xyz_ns (argmax_xyz R) R.
 
 (* ------------------------------------------------------------------ order 'yxz' / 'camera' *)
 Definition pitch_yxz (k : nat) (R : M33 T) (r y : T) : T :=
@@ -92,22 +94,22 @@ Definition pitch_yxz (k : nat) (R : M33 T) (r y : T) : T :=
   end.
 Definition argmax_yxz (R : M33 T) : nat :=
   let '((r00,r01,r02),(r10,r11,r12),(r20,r21,r22)) := R in argmax4 (abs r10) (abs r11) (abs r02) (abs r22).
-Definition rpy_yxz_sing (R : M33 T) : option (V3 T) :=
+Definition rpy_yxz_sing (R : M33 T) : V3 T :=
   let '((r00,r01,r02),(r10,r11,r12),(r20,r21,r22)) := R in
   let y := if r12 <? 0 then - atan2 r20 r00 else atan2 (- r20) (- r21) in
-  match asin_py r12 with None => None | Some a => Some (0, - a, y) end.
+  (0, - asin_clip r12, y).
 Definition rpy_yxz_ns (k : nat) (R : M33 T) : V3 T :=
   let '((r00,r01,r02),(r10,r11,r12),(r20,r21,r22)) := R in
   let r := atan2 r10 r11 in let y := atan2 r02 r22 in
   (r, pitch_yxz k R r y, y).
-Definition tr2rpy_yxz (c : T) (R : M33 T) : option (V3 T) :=
+Definition tr2rpy_yxz (c : T) (R : M33 T) : V3 T :=
   let '((r00,r01,r02),(r10,r11,r12),(r20,r21,r22)) := R in
-  if is_sing c r12 then rpy_yxz_sing R else Some (rpy_yxz_ns (argmax_yxz R) R).
+  if is_sing c r12 then rpy_yxz_sing R else rpy_yxz_ns (argmax_yxz R) R.
 
 (* with the unit option *)
-Definition tr2rpy_zyx_u (c : T) (deg : bool) (R : M33 T) := option_map (scale_unit deg) (tr2rpy_zyx c R).
-Definition tr2rpy_xyz_u (c : T) (deg : bool) (R : M33 T) := option_map (scale_unit deg) (tr2rpy_xyz c R).
-Definition tr2rpy_yxz_u (c : T) (deg : bool) (R : M33 T) := option_map (scale_unit deg) (tr2rpy_yxz c R).
+Definition tr2rpy_zyx_u (c : T) (deg : bool) (R : M33 T) : V3 T := scale_unit deg (tr2rpy_zyx c R).
+Definition tr2rpy_xyz_u (c : T) (deg : bool) (R : M33 T) : V3 T := scale_unit deg (tr2rpy_xyz c R).
+Definition tr2rpy_yxz_u (c : T) (deg : bool) (R : M33 T) : V3 T := scale_unit deg (tr2rpy_yxz c R).
 
 (* ------------------------------------------------------------------ tr2eul *)
 (* the last two angles given the first (code lines shared by both branches), sp/cp passed in;
@@ -128,9 +130,10 @@ Definition tr2eul (c1 c2 : T) (flip : bool) (R : M33 T) : V3 T :=
 Definition tr2eul_u (c1 c2 : T) (flip deg : bool) (R : M33 T) : V3 T := scale_unit deg (tr2eul c1 c2 flip R).
 
 (* ------------------------------------------------------------------ planar *)
-(* tr2xyt(T, unit): the code IGNORES its unit argument (no conversion) -- mirrored *)
+(* tr2xyt(T, unit): angle = atan2(T[1,0], T[0,0]); if unit == 'deg': angle *= 180 / math.pi   (fix 3a3ffa8) *)
 Definition tr2xyt (deg : bool) (A : M33 T) : V3 T :=
-  let '((a00,a01,a02),(a10,a11,a12),(a20,a21,a22)) := A in (a02, a12, atan2 a10 a00).
+  let '((a00,a01,a02),(a10,a11,a12),(a20,a21,a22)) := A in
+  (a02, a12, if deg then atan2 a10 a00 * to_deg else atan2 a10 a00).
 (* SO2.theta(unit) / SE2.theta(unit): conv * atan2(A[1,0], A[0,0]), conv = 180.0/math.pi or 1.0 *)
 Definition theta2 (deg : bool) (A : M22 T) : T :=
   let '((a00,a01),(a10,a11)) := A in (if deg then to_deg else 1) * atan2 a10 a00.
@@ -153,7 +156,7 @@ Definition xyt2tr_ref (a : V3 T) : M33 T := let '(x,y,t) := a in rt2tr2 O (rot2_
 End Angles.
 
 Create HintDb c05 discriminated.
-#[export] Hint Unfold argmax4 asin_py to_deg scale_unit is_sing pitch_zyx argmax_zyx rpy_zyx_sing rpy_zyx_ns tr2rpy_zyx
+#[export] Hint Unfold argmax4 clip1 asin_clip to_deg scale_unit is_sing pitch_zyx argmax_zyx rpy_zyx_sing rpy_zyx_ns tr2rpy_zyx
   pitch_xyz argmax_xyz rpy_xyz_sing rpy_xyz_ns tr2rpy_xyz pitch_yxz argmax_yxz rpy_yxz_sing rpy_yxz_ns tr2rpy_yxz
   tr2rpy_zyx_u tr2rpy_xyz_u tr2rpy_yxz_u eul_sing eul_ns eul_is_sing tr2eul tr2eul_u tr2xyt theta2
   tr2rpy_zyx_u4 tr2rpy_xyz_u4 tr2rpy_yxz_u4 tr2eul_u4 Rz Ry Rx rpy2r_zyx_ref rpy2r_xyz_ref rpy2r_yxz_ref eul2r_ref xyt2tr_ref : c05.
